@@ -52,7 +52,7 @@ func vfC03Devs(step string) []string {
 	case "S5-sasl":
 		return append([]string{"fail", "fail-aborted"}, common...)
 	case "S7-resume":
-		return append([]string{"refuse", "refuse-item-not-found", "other-id"}, common...)
+		return append([]string{"refuse", "refuse-item-not-found", "other-id", "no-id", "empty-id", "id-prefix", "id-other-case"}, common...)
 	case "S8-bind":
 		return append([]string{"fail", "fail-echo-payload", "iq-foreign-id", "payload-in-message", "result-without-bind", "type-get"}, common...)
 	case "S9-session":
@@ -287,7 +287,13 @@ func vfC03Play(pc *vfPeerConn, cs *vfC03Case, scripted bool, tlsCfg *tls.Config,
 			}
 			lg.refused = true
 		default:
-			if reply("S7-resume", okr, map[string]string{"other-id": fmt.Sprintf("<resumed xmlns='%s' previd='%s-x' h='0'/>", vfNSSM, e.Attrs["previd"])}) {
+			if reply("S7-resume", okr, map[string]string{
+				"other-id":      fmt.Sprintf("<resumed xmlns='%s' previd='%s-x' h='0'/>", vfNSSM, e.Attrs["previd"]),
+				"no-id":         fmt.Sprintf("<resumed xmlns='%s' h='0'/>", vfNSSM), // names no session at all
+				"empty-id":      fmt.Sprintf("<resumed xmlns='%s' previd='' h='0'/>", vfNSSM),
+				"id-prefix":     fmt.Sprintf("<resumed xmlns='%s' previd='%s' h='0'/>", vfNSSM, e.Attrs["previd"][:len(e.Attrs["previd"])/2]),
+				"id-other-case": fmt.Sprintf("<resumed xmlns='%s' previd='%s' h='0'/>", vfNSSM, vfSwapCase(e.Attrs["previd"])),
+			}) {
 				return
 			}
 			if d == "" {
@@ -723,4 +729,17 @@ func TestVf_C03(t *testing.T) {
 	if run.NViolations() > 0 {
 		t.Fail()
 	}
+}
+
+func vfSwapCase(x string) string {
+	b := []byte(x)
+	for i, c := range b {
+		switch {
+		case c >= 'a' && c <= 'z':
+			b[i] = c - 32
+		case c >= 'A' && c <= 'Z':
+			b[i] = c + 32
+		}
+	}
+	return string(b)
 }
